@@ -63,7 +63,7 @@ DMenu(c) ==
                         St("out", Sh("rot"), "none", "c0", 1), St("out", Bin("-", Sh("rev"), Sh("own")), "none", "c0", 1),
                         St("out", In("i"), "none", "c0", 1)}
     [] c = "atomic" -> {St("atomic", In("lin"), "none", cell, 1) : cell \in {"c0", "o", "i"}}
-                       \cup {St("atomic", IV, "ieven", "c0", 2), St("out", In("lin"), "none", "c0", 1)}
+                       \cup {St("atomsub", IV, "ieven", "c0", 2), St("atominc", C(1), "none", "i", 1), St("out", In("lin"), "none", "c0", 1)}
     [] c = "mixed"  -> {St("sh", In("lin"), "none", "c0", 1), St("exset", Sh("own"), "none", "c0", 1),
                         St("atomic", Bin("+", Sh("rev"), EX), "none", "o", 1), St("let", Sh("zero"), "none", "c0", 1),
                         St("outadd", Call(TMP, EX), "sum", "c0", 1)}
@@ -76,6 +76,7 @@ DPlans(c) ==
     [] c = "mixed"  -> {<< <<2, 2>> >>, << <<2, 1, 1>> >>}
     [] c = "tile"   -> {<< <<2>> >>, << <<1>>, <<1>> >>}
 DNoBar(c) == IF c \in {"shared", "mixed"} THEN BOOLEAN ELSE {FALSE}
+DWraps(c) == IF c = "shared" THEN {"none", "ifo"} ELSE IF c = "atomic" THEN {"none", "ifa"} ELSE {"none"}
 
 \* =========================================================================================
 \* G: generation menus
@@ -101,7 +102,8 @@ Cells   == {"c0", "o", "i"}
 
 Cnd(ops, E)  == {St(op, e, c, "c0", 1) : op \in ops, e \in E, c \in Conds}
 Rep(ops, E)  == {St(op, e, "none", "c0", n) : op \in ops, e \in E, n \in {2, 3}}
-Atom(E)      == {St("atomic", e, c, cell, n) : e \in E, c \in {"none", "ieven", "sum"}, cell \in Cells, n \in {1, 2}}
+Atom(E)      == {St(op, e, c, cell, n) : op \in {"atomic", "atomsub"}, e \in E, c \in {"none", "ieven", "sum"}, cell \in Cells, n \in {1, 2}}
+                \cup {St(op, C(1), c, cell, 1) : op \in {"atominc", "atomdec"}, c \in {"none", "sum"}, cell \in Cells}
 
 StyleSet(fs) == {[f \in DOMAIN NoStyle |-> IF f = "tile" THEN FALSE ELSE (f \in on)] : on \in SUBSET fs}
 \* the heads of a class are a product of component sets (kept as a record so that a simulation can
@@ -117,6 +119,7 @@ HeadParams(c) ==
     [] c = "mixed"  -> HP(ShapesO, ShapesI, {TRUE}, {TRUE}, GBases, Maps, {NoStyle}, {0})
     [] c = "annot"  -> HP(ShapesO, ShapesI, BOOLEAN, BOOLEAN, {NoE, Bin("+", In("o"), A)}, {"row", "col"},
                           StyleSet({"restrict", "rt", "maxin", "simd", "xbar", "dim"}), {0})
+    [] c = "shflow" -> HP(ShapesO, ShapesI \ {<<1>>}, {TRUE}, {FALSE}, {NoE}, Maps, {NoStyle}, {0})
     [] c = "tile"   -> HP(Shapes1, Shapes1 \cup {<<4>>}, {FALSE}, {FALSE}, {NoE}, Maps,
                           {[st EXCEPT !.tile = TRUE] : st \in StyleSet({"restrict", "rt"})}, 0..3)
 \* limit = all iterations minus `less` (only @tile nests may leave iterations out)
@@ -132,7 +135,7 @@ GMenu(c) ==
                        \cup Rep({"outadd"}, ESmall \cup ECtl)
     [] c = "excl"   -> Plain({"exset", "exadd", "out", "outadd"}, ESmall \cup EEx \cup EBaseU)
                        \cup Cnd({"exadd", "out"}, EEx \cup ESmall) \cup Rep({"exadd"}, EEx \cup ESmall)
-    [] c = "shared" -> Plain({"sh"}, ESmall \cup EShOwn) \cup Plain({"out", "outadd"}, EShOwn \cup EShOth \cup ESmall)
+    [] c = "shared" -> Plain({"sh"}, ESmall \cup EShOwn) \cup Plain({"out", "outadd"}, EShOwn \cup EShOth \cup {In("lin"), IV})
                        \cup Cnd({"out"}, EShOth)
     [] c = "atomic" -> Atom(ESmall) \cup Plain({"out"}, ESmall)
     [] c \in {"mixed", "annot"} ->
@@ -140,14 +143,19 @@ GMenu(c) ==
                        \cup Plain({"out", "outadd", "let"}, ESmall \cup EShOwn \cup EShOth \cup EEx \cup ECtl \cup EBaseU)
                        \cup Cnd({"out", "exadd"}, EShOth \cup EEx \cup ECtl) \cup Rep({"exadd", "outadd"}, EShOth \cup EEx)
                        \cup Atom({IV, In("lin"), EX, Sh("rot"), Sh("own"), TMP, BASE})
+    [] c = "shflow" -> Plain({"sh"}, {In("lin"), Bin("+", In("rot"), IV), Bin("*", Sh("own"), C(2))})
+                       \cup Plain({"out", "outadd"}, EShOth) \cup {St("atomic", Sh("rot"), "none", "o", 1)}
     [] c = "tile"   -> Plain({"out", "outadd", "let"}, ESmall \cup ECtl) \cup Cnd({"out"}, ESmall) \cup Atom({IV, In("lin")})
 
 GPlans(c) ==
   CASE c \in {"basic", "control", "atomic"} -> PlanSet(2, 2, 2) \cup PlanSet(1, 3, 2)
-    [] c \in {"excl", "shared"}   -> PlanSet(1, 3, 2) \cup PlanSet(1, 2, 3) \cup PlanSet(2, 2, 2) \cup {<< <<1, 1, 1, 1>> >>}
-    [] c \in {"mixed", "annot"}   -> PlanSet(1, 3, 3) \cup PlanSet(2, 2, 3)
+    [] c \in {"excl", "shared"}   -> {p \in PlanSet(1, 3, 2) \cup PlanSet(1, 2, 3) \cup PlanSet(2, 3, 2) : \E j \in 1..Len(p) : Len(p[j]) >= 2}
+                                     \cup {<< <<1, 1, 1, 1>> >>}
+    [] c \in {"mixed", "annot"}   -> {p \in PlanSet(1, 3, 3) \cup PlanSet(2, 2, 3) : \E j \in 1..Len(p) : Len(p[j]) >= 2}
+    [] c = "shflow"               -> {p \in PlanSet(2, 3, 2) : \A j \in 1..Len(p) : Len(p[j]) >= 2}
     [] c = "tile"                 -> PlanSet(2, 1, 3)
-GNoBar(c) == IF c \in {"shared", "mixed", "annot"} THEN BOOLEAN ELSE {FALSE}
+GNoBar(c) == IF c \in {"shared", "mixed", "annot", "shflow"} THEN BOOLEAN ELSE {FALSE}
+GWraps(c) == IF c \in {"shared", "mixed", "control", "atomic", "excl", "shflow"} THEN {"none", "block", "ifo", "ifa"} ELSE {"none"}
 
 \* simulation: every evaluation of the generator's choice sets sees a fresh random sample of the menus
 \* (TLC's simulator enumerates all successors of a state before it picks one)
@@ -155,12 +163,20 @@ Sample(n, S) == IF Cardinality(S) <= n THEN S ELSE RandomSubset(n, S)
 SHeads(c) == LET p == HeadParams(c) IN
   {h \in {MkHead(RandomElement(p.Os), RandomElement(p.Is), RandomElement(p.shs), RandomElement(p.exs), RandomElement(p.bases),
                  RandomElement(p.maps), RandomElement(p.styles), RandomElement(p.limits)) : j \in 1..8} : HeadOK(h)}
-StmtOps == {"out", "outadd", "sh", "exset", "exadd", "atomic", "let"}
-SMenu(c)  == LET M == GMenu(c) IN UNION {Sample(8, {s \in M : s.op = op}) : op \in StmtOps}
+StmtOps == {"out", "outadd", "sh", "exset", "exadd", "atomic", "atomsub", "atominc", "atomdec", "let"}
+\* (sampled per kind of statement and per kind of storage read, so that the rarer combinations --
+\*  a read of sh or ex needs an earlier write -- are offered at every step; the partition of the
+\*  menus is a constant, evaluated once)
+GenClasses == {"basic", "control", "excl", "shared", "atomic", "mixed", "annot", "tile", "shflow"}
+MenuParts == [c \in GenClasses |-> LET M == GMenu(c) IN
+               [op \in StmtOps |-> << {s \in M : s.op = op /\ "sh" \in Kinds(s.e)},
+                                      {s \in M : s.op = op /\ "ex" \in Kinds(s.e) /\ "sh" \notin Kinds(s.e)},
+                                      {s \in M : s.op = op /\ "sh" \notin Kinds(s.e) /\ "ex" \notin Kinds(s.e)} >>]]
+SMenu(c)  == UNION {Sample(4, MenuParts[c][op][1]) \cup Sample(3, MenuParts[c][op][2]) \cup Sample(4, MenuParts[c][op][3]) : op \in StmtOps}
 \* the same number of plans for every class, so that a simulation visits the classes equally often
 SPlans(c) == Sample(24, GPlans(c))
 
-AllClasses == {"basic", "control", "excl", "shared", "atomic", "mixed", "annot", "tile"}
+AllClasses == GenClasses
 DesignClasses == {"basic", "excl", "shared", "atomic", "mixed", "tile"}
 NoRelax == {}
 RelaxRaw == {"sh-others-across-barrier"}
